@@ -8,6 +8,7 @@ package main
 // found the caller exits non-zero: a broken tie is reported, never ignored.
 
 import (
+	"bufio"
 	"bytes"
 	"fmt"
 	"go/ast"
@@ -23,6 +24,10 @@ import (
 // c03Tunnel runs one live tunnel of the given kind through the in-process mesh (set by eng_c04.go,
 // which is compiled into every build that carries tag c04 or all).
 var c03Tunnel func(kind string, payload []byte) string
+
+// c03Handshake runs one handler-level `hs …` op, c03HandshakeGen writes such cases (c04_handlers.go).
+var c03Handshake func(f []string) string
+var c03HandshakeGen func(w *bufio.Writer, r *rng, nPerKind int)
 
 func c03RepoRoot() string {
 	if r := os.Getenv("VERIF_REPO"); r != "" {
